@@ -58,6 +58,12 @@ Definition has_pending_state (o : outbound) : bool :=
   || negb (match ob_rel o with [] => true | _ => false end).
 Definition is_quiescent (o : outbound) : bool := negb (has_pending_state o).
 Definition retained_full (o : outbound) : bool := MAX_RETAINED <=? glen (ob_ret o).
+(* unresolved_publishes: retained PUBLISH packets (first byte type 3) plus PUBRELs awaiting PUBCOMP *)
+Definition is_publish_entry (buf : bytes) (e : rentry) : bool :=
+  match dropN (re_off e) buf with b :: _ => N.eqb (b / 16) 3 | [] => false end.
+Definition unresolved_publishes (o : outbound) : N :=
+  glen (filter (is_publish_entry (ob_buf o)) (ob_ret o)) + glen (ob_rel o).
+
 Definition used_after_compact (o : outbound) : N := sumN (map re_len (ob_ret o)).
 Definition scratch_len (o : outbound) : N := ob_cap o - used_after_compact o.
 Definition can_retain (o : outbound) : bool :=
@@ -130,7 +136,7 @@ Fixpoint swap_remove_rel (pid : N) (es : list lentry) : option (list lentry) :=
   end.
 
 Definition ack_release (o : outbound) (pid : N) : outbound * bool :=
-  match swap_remove_rel pid (ob_rel o) with
+  match remove_first_rel pid (ob_rel o) with
   | None => (o, false)
   | Some es => ({| ob_buf := ob_buf o; ob_used := ob_used o; ob_ctl := ob_ctl o; ob_ret := ob_ret o; ob_rel := es |}, true)
   end.
